@@ -59,6 +59,7 @@ let run (id : string) (_hdr : string list) (lines : string list list) (out : str
       w := w'; pr ("B " ^ wres_str res); go rest
     | ["rotate"] :: r -> w := wal_new_file !w; go r
     | ["reopen"] :: r -> go r
+    | ["closerace"; _; _] :: r -> go r   (* the append that races with the close is refused *)
     | ("from" :: [s]) :: r ->
       let es = entries_from (n_of_string s) !w.wl_files in
       pr (Printf.sprintf "G %s n=%d" s (Stdlib.List.length es));
